@@ -785,6 +785,9 @@ func (e *Enc) evalBin(n *SBin, ctx *SpecCtx) (SV, error) {
 		if l.Sort == "Str" && n.Op == "+" {
 			return SV{T: "(str_cat " + l.T + " " + r.T + ")", Sort: "Str", Typ: l.Typ}, nil
 		}
+		if l.Sort == "Real" && n.Op == "*" {
+			return SV{T: e.realMul(l.T, r.T), Sort: "Real", Typ: l.Typ}, nil
+		}
 		return SV{T: "(" + n.Op + " " + l.T + " " + r.T + ")", Sort: l.Sort, Typ: l.Typ}, nil
 	case "/":
 		l, r = e.coerce(l, r)
@@ -1162,6 +1165,54 @@ func (e *Enc) evalCall(n *SCall, ctx *SpecCtx) (SV, error) {
 		c := e.sliceComp(bt.Elem())
 		e.ufun("be64", []string{"(Array Int Int)", "Int"}, "Int")
 		return SV{T: fmt.Sprintf("(be64 (select %s (s_arr %s)) (s_off %s))", e.get(ctx.cur, c), v.T, v.T), Sort: "Int"}, nil
+	}
+	// function-local definitions (let): an uninterpreted function pinned at function entry
+	if lf, ok := e.lets[n.Fn]; ok {
+		if len(n.Args) != len(lf.argSorts) {
+			return SV{}, fmt.Errorf("let %s: want %d args", n.Fn, len(lf.argSorts))
+		}
+		var ts []string
+		for i := range n.Args {
+			a, err := arg(i)
+			if err != nil {
+				return SV{}, err
+			}
+			a = e.adapt(a, lf.argSorts[i])
+			ts = append(ts, a.T)
+		}
+		if len(ts) == 0 {
+			return SV{T: lf.sym, Sort: lf.ret}, nil
+		}
+		return SV{T: "(" + lf.sym + " " + strings.Join(ts, " ") + ")", Sort: lf.ret}, nil
+	}
+	switch n.Fn {
+	case "setadd":
+		s0, err := arg(0)
+		if err != nil {
+			return SV{}, err
+		}
+		x, err := arg(1)
+		if err != nil {
+			return SV{}, err
+		}
+		ks, _ := arraySorts(s0.Sort)
+		x = e.adapt(x, ks)
+		return SV{T: store(s0.T, x.T, "true"), Sort: s0.Sort}, nil
+	case "emptyset":
+		// emptyset(T): the empty set of T
+		srt, _ := e.specSort(n.Args[0].String(), ctx.pkg, ctx.pos)
+		return SV{T: "((as const (Array " + srt + " Bool)) false)", Sort: "(Array " + srt + " Bool)"}, nil
+	case "domOf":
+		m, err := arg(0)
+		if err != nil {
+			return SV{}, err
+		}
+		mt, ok := m.Typ.Underlying().(*types.Map)
+		if !ok {
+			return SV{}, fmt.Errorf("domOf: not a map")
+		}
+		d, _, _ := e.mapComps(mt)
+		return SV{T: sel(e.get(ctx.cur, d), m.T), Sort: "(Array " + e.sortOf(mt.Key()) + " Bool)"}, nil
 	}
 	// spec functions
 	if sf := e.cs.SpecFns[n.Fn]; sf != nil {
